@@ -19,7 +19,7 @@
  * create and destroy it.
  *
  * Deviations from DESIGN.md section C10 (forced by the code, see final report):
- *  - the alphabet is split into five BFS phases (keys / refs / memory / networks / mixed) plus a
+ *  - the alphabet is split into six BFS phases (keys / refs / memory / networks / mixed / decoder) plus a
  *    flat phase over every page function x designation x limit, instead of one product
  *    alphabet, so that depth 6 (quick) .. 8/9 (thorough) stays affordable;
  *  - a put that stores ONE version of a page (subno 0, clock page, subcode > 0x79)
@@ -37,7 +37,24 @@
  *  - pages of a network nobody holds a handle on are unreachable; the model lets them
  *    disappear at any time (the property only demands that they are accounted);
  *  - vbi_cache_hi_subno() is compared for stored subnos 0..0x79 only (the statistic
- *    is 8 bits wide and documented as "0x00 ... 0x79"; clock codes are not subpages);
+ *    is 8 bits wide and documented as "0x00 ... 0x79"; clock codes are not subpages).  The
+ *    library never lowers it when the highest version is superseded or evicted; the oracle
+ *    is two-sided with that tolerance: highest cached subpage <= hi_subno <= highest subno
+ *    ever stored on the CURRENT network (0 on a new network).  The upper bound was added for
+ *    seed C10 round 5 (subpage statistics of the old station surviving a channel switch in
+ *    a recycled cache_network structure);
+ *  - phase "decoder" (seed C10 round 5): the other phases exchange the cache under one
+ *    process-wide decoder and store with _vbi_cache_put_page() only.  This phase builds a
+ *    fresh real vbi_decoder per history (vbi_decoder_new .. vbi_decoder_delete), stores also
+ *    through vbi_decode() of Teletext packets and switches the channel on every path the
+ *    library has (vbi_channel_switched + next frame, time stamp gap + 40 frame countdown,
+ *    header text of another station in store_lop(), vbi_chsw_reset), with and without a page
+ *    held across the switch (new vs recycled cache_network).  The model restates the two
+ *    decoder variables that decide WHEN it switches (countdown pending, remembered station
+ *    header); what the cache must then contain is the map as everywhere else.  At the end of
+ *    every history vbi_is_cached / _vbi_cache_get_page / vbi_cache_hi_subno are compared
+ *    with the map of the current network for every page number of the alphabet (stored here,
+ *    stored on an earlier station only, never stored) x subno ANY,0..3;
  *  - memory_limit has no setter in 0.2: the LIMIT letter does what
  *    vbi_cache_set_memory_limit() of 0.3 does (assign, delete_surplus_pages());
  *  - foreach is an operation of the histories (its lookups reorder the chains and cycle
@@ -79,6 +96,7 @@ static void c10_free(void *p);
 #include "src/cache.c"
 #pragma clang diagnostic pop
 
+#include "src/hamm.h"
 extern void vbi_teletext_channel_switched(vbi_decoder *vbi);
 
 /* Every history frees ~40 KB; with ASan's default 256 MB quarantine each history touches fresh
@@ -109,7 +127,8 @@ static void c10_free(void *p)
 /* ---- alphabet --------------------------------------------------------------- */
 
 enum { OP_PUT, OP_PUTHOLD, OP_GET, OP_ISCACHED, OP_UNREF, OP_REF, OP_FOREACH, OP_PAGETYPE,
-       OP_SWITCH, OP_NETUNREF, OP_NETADD, OP_LIMIT, OP_PURGE, OP_PUTBAD };
+       OP_SWITCH, OP_NETUNREF, OP_NETADD, OP_LIMIT, OP_PURGE, OP_PUTBAD,
+       OP_DEC, OP_CHSW, OP_FRAME, OP_GAP };       /* decoder level (phase "decoder") */
 enum { CL_LOP, CL_ENH, CL_EXT, CL_POP, CL_UNK, CL_DRCS, CL_AIT, CL_OTHER, NCLS };
 static const char *cls_name[NCLS] = { "LOP", "LOP+X26", "LOP+X28", "POP", "UNKNOWN", "DRCS", "AIT", "MOT" };
 
@@ -146,6 +165,10 @@ static int pgidx(int pgno) { for (int i = 0; i < NPG; i++) if (PG[i] == pgno) re
 #define LIMIT(x)         { OP_LIMIT, 0, 0, 0, 0, 0, x }
 #define PURGE            { OP_PURGE, 0, 0, 0, 0, 0, 0 }
 #define PUTBAD(n)        { OP_PUTBAD, n, 0x1FF, 0, 0, CL_LOP, 0 }
+#define DEC(p,s,st)      { OP_DEC, 0, p, s, 0, CL_LOP, st }   /* page received through vbi_decode(), header text of station st */
+#define CHSW             { OP_CHSW, 0, 0, 0, 0, 0, 0 }        /* vbi_channel_switched(): executed with the next frame */
+#define FRAME            { OP_FRAME, 0, 0, 0, 0, 0, 0 }       /* vbi_decode() of one empty frame */
+#define GAP              { OP_GAP, 0, 0, 0, 0, 0, 0 }         /* time stamp gap + 39 frames: the countdown stands at 1 */
 
 /* keys: subpage key rules, wildcard/MRU lookups, page type, walk; no references kept, one network */
 static const struct letter A_keys[] = {
@@ -197,9 +220,24 @@ static const struct letter A_mix[] = {
         GET(0,0x171,VBI_ANY_SUBNO,M_EXACT), UNREF(0), UNREF(1),
 };
 
-struct alphabet { const char *name; const struct letter *L; int n; };
-#define ALPHA(nm, arr) { nm, arr, (int)(sizeof arr / sizeof *arr) }
-static struct alphabet ALPH[] = { ALPHA("keys", A_keys), ALPHA("refs", A_refs), ALPHA("memory", A_mem), ALPHA("networks", A_net), ALPHA("mixed", A_mix) };
+/* decoder (seed C10 round 5): the cache as the decoder drives it.  A real vbi_decoder per history; pages are stored
+ * with _vbi_cache_put_page() on vbi->cn and by vbi_decode() of Teletext packets (header, one row, terminating
+ * header); the channel is switched on every path the library has: vbi_channel_switched() + the next frame, a time
+ * stamp gap + the 40 frame countdown, the header comparison of store_lop() (a page with the header text of another
+ * station arrives) and vbi_chsw_reset() called directly - with and without a page of the old station held across the
+ * switch, which decides between recycling the old cache_network structure and allocating a new one.  Pages with the
+ * same number get fewer / more / no subpages on the new station. */
+static const struct letter A_dec[] = {
+        PUT(0,0x100,1,CL_LOP), PUT(0,0x100,3,CL_LOP), PUT(0,0x171,0,CL_LOP),
+        DEC(0x100,1,0), DEC(0x100,2,0), DEC(0x171,1,0), DEC(0x100,1,1),
+        CHSW, FRAME, GAP, SWITCH(0),
+        GET(0,0x100,VBI_ANY_SUBNO,M_EXACT), GET(0,0x171,VBI_ANY_SUBNO,M_EXACT), UNREF(0), UNREF(1),
+};
+
+struct alphabet { const char *name; const struct letter *L; int n; int dec; };
+#define ALPHA(nm, arr) { nm, arr, (int)(sizeof arr / sizeof *arr), 0 }
+static struct alphabet ALPH[] = { ALPHA("keys", A_keys), ALPHA("refs", A_refs), ALPHA("memory", A_mem), ALPHA("networks", A_net), ALPHA("mixed", A_mix),
+        { "decoder", A_dec, (int)(sizeof A_dec / sizeof *A_dec), 1 } };
 #define NALPH ((int)(sizeof ALPH / sizeof *ALPH))
 
 static const char *subno_str(int s) { static char b[4][16]; static int k; char *p = b[k++ & 3]; if (s == VBI_ANY_SUBNO) strcpy(p, "ANY"); else snprintf(p, 16, "%x", s); return p; }
@@ -226,6 +264,10 @@ static const char *letter_name(int l, void *arg)
         case OP_NETADD:   snprintf(p, 80, "add_network(n%d)", L->net); break;
         case OP_LIMIT:    snprintf(p, 80, "memory_limit=%ld", L->arg); break;
         case OP_PURGE:    snprintf(p, 80, "purge"); break;
+        case OP_DEC:      snprintf(p, 80, "vbi_decode(%x.%s,station %c)", L->pgno, subno_str(L->subno), (int)('A' + L->arg)); break;
+        case OP_CHSW:     snprintf(p, 80, "vbi_channel_switched"); break;
+        case OP_FRAME:    snprintf(p, 80, "vbi_decode(empty frame)"); break;
+        case OP_GAP:      snprintf(p, 80, "vbi_decode(time gap + 39 frames)"); break;
         default:          snprintf(p, 80, "?"); break;
         }
         return p;
@@ -305,8 +347,11 @@ static vbi_cache *ca;
 static cache_network *slot_cn[NH];     /* slot 0 mirrors g_vbi->cn */
 
 enum { V_FREE = 0, V_CACHED, V_ZOMBIE, V_GONE };
-struct mver { int st, net, pgno, subno, cls, holds; unsigned tag, size; uint64_t stamp; cache_page *real; int seen; };
-struct mnet { int alive; cache_network *real; int handles; unsigned char clock[NPG]; int seen; };
+struct mver { int st, net, pgno, subno, cls, holds; unsigned tag, size; uint64_t stamp; cache_page *real; int seen;
+              int dec, station; };       /* dec: received through vbi_decode() with the header text of this station */
+/* hi_ever: the highest subno 0..0x79 ever stored for PG[i] on this network (this incarnation of the structure);
+ * hi_wide: a subno above 0x79 was stored (the 8 bit statistic is then undefined, see head comment) */
+struct mnet { int alive; cache_network *real; int handles; unsigned char clock[NPG]; int seen; int hi_ever[NPG]; unsigned char hi_wide[NPG]; };
 #define MAXV 80
 #define MAXN 80
 static struct mver V[MAXV]; static int nV;
@@ -315,6 +360,17 @@ static int slot_net[NH];
 static uint64_t mclock;
 static unsigned next_tag;
 static int nholds;
+
+/* decoder level: g_dec = the world is a fresh real vbi_decoder (phase "decoder"), else the process-wide decoder with
+ * an exchanged cache.  D_pending / D_hdr restate the two variables of the decoder that decide when it switches the
+ * channel: the countdown (vbi->chswcd, here only 0 or 1 between letters) and the station whose header text it
+ * remembers (vbi->vt.header, -1 = none since the last switch). */
+static int g_dec;
+static vbi_decoder *g_vbi_shared;
+static double g_now;
+static int D_pending, D_hdr;
+static uint64_t dec_events;
+static void dec_event(vbi_event *ev, void *ud) { (void) ev; (void) ud; dec_events++; }
 
 /* per run flags */
 static int g_report;          /* violations of this step are reported */
@@ -326,13 +382,19 @@ static const char *g_opname = "";
 /* local evidence */
 enum { OC_PUT_NEW, OC_PUT_REPLACE, OC_PUT_ZOMBIFY, OC_PUT_REUSE, OC_PUT_EVICT, OC_PUT_FAIL, OC_PUT_SINGLE_DROPS, OC_GET_HIT, OC_GET_MISS,
        OC_UNREF_FREE_ZOMBIE, OC_UNREF_EVICT, OC_UNREF_SHARED, OC_SWITCH_RECYCLE, OC_SWITCH_NEWNET, OC_NET_DELETED, OC_NET_ZOMBIE,
-       OC_PURGE_KEEPS_HELD, OC_LIMIT_EVICT, OC_FOREACH_VISIT, OC_FOREACH_SKIPPED, OC_ISC_TRUE, OC_ISC_FALSE, OC_DUP, OC_PUT_BAD_REFUSED, OC_N };
+       OC_PURGE_KEEPS_HELD, OC_LIMIT_EVICT, OC_FOREACH_VISIT, OC_FOREACH_SKIPPED, OC_ISC_TRUE, OC_ISC_FALSE, OC_DUP, OC_PUT_BAD_REFUSED,
+       OC_HI_EXACT, OC_HI_ABOVE, OC_DEC_STORED, OC_DEC_REPLACES_PUT, OC_DEC_AUTOSWITCH, OC_DEC_SWITCH_THEN_STORE, OC_FRAME_SWITCH, OC_GAP_COUNTDOWN,
+       OC_SWITCH_FEWER, OC_PROBE_HIT, OC_PROBE_MISS, OC_N };
 static const char *oc_name[OC_N] = { "put:new key", "put:replaces unreferenced version", "put:referenced version becomes zombie",
         "put:reuses victim allocation", "put:evicts under pressure", "put:fails under pressure", "put:single-version put supersedes another subno",
         "get:hit", "get:miss", "unref:zombie freed", "unref:eviction", "unref:still referenced", "switch:network recycled",
         "switch:new network beside referenced old one", "network deleted", "network zombie", "purge:referenced page stays cached",
         "limit:evicts", "foreach:visits", "foreach:not issued (no reachable page)", "is_cached:true", "is_cached:false",
-        "duplicate subno (finding)", "put:invalid pgno refused" };
+        "duplicate subno (finding)", "put:invalid pgno refused",
+        "hi_subno:equals the highest cached subpage", "hi_subno:above the map, <= highest ever stored here",
+        "decode:page stored", "decode:replaces a version stored with put", "decode:foreign header switches channel, page dropped",
+        "decode:pending switch executed, page stored after", "frame:pending switch executed", "gap:countdown started",
+        "switch:page has fewer/no subpages on the new network", "probe:hit", "probe:miss" };
 static unsigned char oc_seen[OC_N]; static uint64_t oc_cnt[OC_N];
 static void oc(int i) { oc_cnt[i]++; if (!oc_seen[i]) { oc_seen[i] = 1; mc_outcome("%s", oc_name[i]); } }
 
@@ -371,6 +433,18 @@ static void world_init(void)
         live_n = 0; live_overflow = 0;
         nV = nN = 0; mclock = 0; next_tag = 1; nholds = 0; g_hard = 0;
         for (int i = 0; i < NH; i++) { slot_cn[i] = NULL; slot_net[i] = -1; }
+        if (g_dec) {
+                /* the real thing: vbi_decoder_new() (cache, network, vbi_teletext_channel_switched()), a Teletext page
+                 * handler (without one packets 0..29 are not decoded) and a first frame, which sets the time base */
+                g_vbi_shared = g_vbi;
+                g_vbi = vbi_decoder_new();
+                if (!g_vbi || !vbi_event_handler_register(g_vbi, VBI_EVENT_TTX_PAGE, dec_event, NULL)) { fprintf(stderr, "C10: vbi_decoder_new failed\n"); exit(42); }
+                ca = g_vbi->ca;
+                g_now = 1000.0; D_pending = 0; D_hdr = -1;
+                vbi_decode(g_vbi, NULL, 0, g_now);
+                slot_cn[0] = g_vbi->cn; slot_net[0] = new_mnet(g_vbi->cn);
+                return;
+        }
         /* as vbi_decoder_new() */
         ca = vbi_cache_new();
         cache_network *cn = ca ? _vbi_cache_add_network(ca, NULL, VBI_VIDEOSTD_SET_625_50) : NULL;
@@ -470,8 +544,35 @@ static long m_used(void)
         return u;
 }
 
+/* ---- Teletext packets of the decoder phase ------------------------------------------------------ */
+
+/* 42 bytes: page header of pgno.subno (magazine parallel mode, no control bits) with the header text of a station:
+ * 8 characters name, the page number (the decoder looks for it to compare headers), date, clock */
+static void dec_header(uint8_t *d, int pgno, int subno, int station)
+{
+        char text[40];
+        d[0] = vbi_ham8(pgno >> 8 & 7); d[1] = vbi_ham8(0);
+        d[2] = vbi_ham8(pgno & 15); d[3] = vbi_ham8(pgno >> 4 & 15);
+        d[4] = vbi_ham8(subno & 15); d[5] = vbi_ham8(subno >> 4 & 15); d[6] = vbi_ham8(subno >> 8 & 15); d[7] = vbi_ham8(subno >> 12 & 15);
+        d[8] = vbi_ham8(0); d[9] = vbi_ham8(0);
+        snprintf(text, sizeof text, "%s %03X %s  12:34:56", station ? "ZWEITES " : "STATION1", pgno, station ? "Di 02 Feb" : "Mo 01 Jan");
+        for (int i = 0; i < 32; i++) d[10 + i] = vbi_par8((unsigned char) text[i]);
+}
+static void dec_row(uint8_t *d, int pgno, int row, unsigned tag)
+{
+        d[0] = vbi_ham8((pgno >> 8 & 7) | (row & 1) << 3); d[1] = vbi_ham8(row >> 1);
+        for (unsigned k = 0; k < 40; k++) d[2 + k] = vbi_par8(0x20 + (tag * 7 + k * 3) % 0x5F);
+}
+
 static int page_equals(const cache_page *cp, const struct mver *v)
 {
+        if (v->dec) {
+                /* received through vbi_decode(): the header and the row that were transmitted */
+                uint8_t h[42], r[42];
+                if (cp->function != PAGE_FUNCTION_LOP || cp->pgno != v->pgno || cp->subno != v->subno) return 0;
+                dec_header(h, v->pgno, v->subno, v->station); dec_row(r, v->pgno, 1, v->tag);
+                return !memcmp(cp->data.lop.raw[0], h + 2, 40) && !memcmp(cp->data.lop.raw[1], r + 2, 40);
+        }
         if ((int) cp->function != cls_function(v->cls) || cp->pgno != v->pgno || cp->subno != v->subno) return 0;
         if (cp->national != (int)(v->tag & 7) || cp->flags != (0xC0DE0000u | v->tag) || cp->lop_packets != v->tag * 3 + 1) return 0;
         if (cp->x27_designations != (v->tag ^ 0x55u)) return 0;
@@ -622,6 +723,17 @@ static void settle(const struct expect *A, int full)
                         int hi = vbi_cache_hi_subno(g_vbi, PG[p]), want = -1;
                         for (int k = 0; k < nV; k++) if (V[k].st == V_CACHED && V[k].net == slot_net[s] && V[k].pgno == PG[p] && V[k].subno <= 0x79 && V[k].subno > want) want = V[k].subno;
                         if (hi < want) { g_vbi->cn = save; viol(1, "vbi_cache_hi_subno below a stored subpage", "pgno %x: %x < %x", PG[p], hi, want); return; }
+                        /* ... and not above: the library never lowers the statistic when the highest version is superseded or
+                         * evicted, which the property text does not clearly forbid ("agree with that map" is read with this
+                         * tolerance); but a value above every subpage ever stored on THIS network cannot agree with any map
+                         * of it - in particular 0 is demanded for every page number on a new network after a channel switch
+                         * and the new maximum once pages of the new station were stored (seed C10 round 5) */
+                        const struct mnet *mn = &N[slot_net[s]];
+                        if (!mn->hi_wide[p]) {
+                                if (hi > mn->hi_ever[p]) { g_vbi->cn = save;
+                                        viol(1, "vbi_cache_hi_subno above every subpage ever stored on this network", "pgno %x: %x > %x (highest cached: %x)", PG[p], hi, mn->hi_ever[p], want < 0 ? 0 : want); return; }
+                                if (g_report) oc(hi == (want < 0 ? 0 : want) ? OC_HI_EXACT : OC_HI_ABOVE);
+                        }
                 }
                 g_vbi->cn = save;
         }
@@ -637,6 +749,14 @@ static cache_page *referenced_at(int i)
         for (struct node *n = ca->referenced._succ; n != &ca->referenced; n = n->_succ, k++)
                 if (k == i) return PARENT(n, cache_page, pri_node);
         return NULL;
+}
+
+static void m_stored(int net, int pgno, int stored)
+{
+        int pi = pgidx(pgno);
+        if (pi < 0) return;
+        if (stored > 0x79) N[net].hi_wide[pi] = 1;
+        else if (stored > N[net].hi_ever[pi]) N[net].hi_ever[pi] = stored;
 }
 
 static void do_put(const struct letter *L, int hold, int full)
@@ -686,6 +806,7 @@ static void do_put(const struct letter *L, int hold, int full)
         v->st = V_CACHED; v->net = net; v->pgno = L->pgno; v->subno = stored; v->cls = L->cls; v->holds = 1;
         v->tag = tag; v->size = size; v->stamp = ++mclock; v->real = cp;
         g_new_version = v;
+        m_stored(net, L->pgno, stored);
         if (cp->ref_count != 1) { viol(1, "put returns a page with ref_count != 1", "%u", cp->ref_count); return; }
         if (!page_equals(cp, v)) { viol(1, "put stores something else than it was given", "%x.%x -> %x.%x function %d", L->pgno, L->subno, cp->pgno, cp->subno, cp->function); return; }
         if (A.pressure) oc(OC_PUT_EVICT);
@@ -823,6 +944,7 @@ static void do_switch(int slot, int full)
         if (slot == 0) {
                 vbi_chsw_reset(g_vbi, 0);                 /* the library's own channel switch */
                 slot_cn[0] = g_vbi->cn;
+                D_pending = 0; D_hdr = -1;                /* it also ends the countdown and forgets the header */
         } else {
                 cache_network_unref(slot_cn[slot]);      /* what vbi_chsw_reset() does, for a second decoder sharing the cache */
                 slot_cn[slot] = _vbi_cache_add_network(ca, NULL, VBI_VIDEOSTD_SET_625_50);
@@ -891,6 +1013,104 @@ static void do_pagetype(const struct letter *L, int full)
         settle(&NOTHING, full);
 }
 
+/* ---- decoder level operations --------------------------------------------------------------------
+ * The real operation is executed first; the model then follows in the order the decoder works: a pending channel
+ * switch is executed when the frame begins, then the lines are decoded.  At most one switch happens per letter. */
+
+static void dec_model_switch(void)
+{
+        N[slot_net[0]].handles--;
+        slot_cn[0] = g_vbi->cn;
+        slot_net[0] = new_mnet(g_vbi->cn);
+        D_pending = 0; D_hdr = -1;
+}
+
+static void do_chsw(int full)
+{
+        vbi_channel_switched(g_vbi, 0);
+        D_pending = 1;
+        settle(&NOTHING, full);
+}
+
+static void do_frame(int gap, int full)
+{
+        if (gap) {
+                /* a time stamp gap starts the countdown at 40 unless one is running; 39 regular frames later it
+                 * stands at 1 (or the switch that was pending has been executed by the first of them) */
+                g_now += 1.0; vbi_decode(g_vbi, NULL, 0, g_now);
+                for (int i = 0; i < 39; i++) { g_now += 0.04; vbi_decode(g_vbi, NULL, 0, g_now); }
+        } else {
+                g_now += 0.04; vbi_decode(g_vbi, NULL, 0, g_now);
+        }
+        if (D_pending) {
+                dec_model_switch(); oc(OC_FRAME_SWITCH);
+                if (g_hard) return;
+                probe_empty(0);
+                if (g_hard) return;
+        } else if (gap) { D_pending = 1; oc(OC_GAP_COUNTDOWN); }
+        settle(&NOTHING, full);
+}
+
+static void do_dec(const struct letter *L, int full)
+{
+        int station = (int) L->arg, switched = 0;
+        unsigned tag = next_tag++;
+        vbi_sliced sl[3];
+        memset(sl, 0, sizeof sl);
+        for (int i = 0; i < 3; i++) { sl[i].id = VBI_SLICED_TELETEXT_B; sl[i].line = 7 + i; }
+        dec_header(sl[0].data, L->pgno, L->subno, station);
+        dec_row(sl[1].data, L->pgno, 1, tag);
+        dec_header(sl[2].data, (L->pgno & 0x700) | 0xFF, 0, station);       /* time filling header: ends the page in its magazine */
+        g_now += 0.04;
+        vbi_decode(g_vbi, sl, 3, g_now);
+
+        struct expect A = NOTHING;
+        if (D_pending) { dec_model_switch(); switched = 1; if (g_hard) return; }
+        int net = slot_net[0];
+        /* the header looks the page up to continue from the cached version */
+        struct mver *hit = m_find(net, L->pgno, L->subno, M_EXACT);
+        if (hit) hit->stamp = ++mclock;
+        /* the terminating header stores the page, unless its header text is that of another station than the one
+         * remembered: then the decoder assumes a channel switch it was not told about and drops the page */
+        if (D_hdr >= 0 && D_hdr != station) {
+                dec_model_switch(); oc(OC_DEC_AUTOSWITCH);
+                if (g_hard) return;
+                probe_empty(0);
+                if (g_hard) return;
+                settle(&A, full);
+                return;
+        }
+        D_hdr = station; D_pending = 0;
+        int stored, mask;
+        m_key(0, L->pgno, L->subno, &stored, &mask);
+        struct mver *match = mask ? m_find(net, L->pgno, stored, mask) : NULL;
+        A.must_go = match;
+        if (!mask) { A.put_net = net; A.put_pgno = L->pgno; }
+        /* the page the decoder stored: first on its hash chain */
+        cache_page *cp = NULL;
+        for (struct node *n = ca->hash[L->pgno % HASH_SIZE]._succ; n != &ca->hash[L->pgno % HASH_SIZE] && n; n = n->_succ) {
+                cache_page *c = PARENT(n, cache_page, hash_node);
+                if (c->network == g_vbi->cn && c->pgno == L->pgno && c->subno == stored) { cp = c; break; }
+        }
+        if (!cp) { viol(1, "page received through vbi_decode() is not in the cache", "%x.%x", L->pgno, L->subno); return; }
+        for (int i = 0; i < nV; i++) if ((V[i].st == V_CACHED || V[i].st == V_ZOMBIE) && V[i].real == cp) {
+                if (V[i].holds) { viol(1, "put overwrites a referenced page", "%x.%x", V[i].pgno, V[i].subno); return; }
+                if (&V[i] != match) { viol(1, "page received through vbi_decode() is not in the cache", "%x.%x: an older version is", L->pgno, L->subno); return; }
+                V[i].real = NULL; oc(OC_PUT_REUSE);
+        }
+        if (match) { oc(match->holds ? OC_PUT_ZOMBIFY : OC_PUT_REPLACE); if (!match->dec) oc(OC_DEC_REPLACES_PUT); } else if (mask) oc(OC_PUT_NEW);
+        oc(switched ? OC_DEC_SWITCH_THEN_STORE : OC_DEC_STORED);
+        if (nV >= MAXV) { fprintf(stderr, "C10: MAXV\n"); exit(42); }
+        struct mver *v = &V[nV++];
+        memset(v, 0, sizeof *v);
+        v->st = V_CACHED; v->net = net; v->pgno = L->pgno; v->subno = stored; v->cls = CL_LOP; v->holds = 0;
+        v->tag = tag; v->size = cls_size(CL_LOP); v->stamp = ++mclock; v->real = cp; v->dec = 1; v->station = station;
+        g_new_version = v;
+        m_stored(net, L->pgno, stored);
+        if (!page_equals(cp, v)) { viol(1, "put stores something else than it was given", "vbi_decode %x.%x -> %x.%x function %d", L->pgno, L->subno, cp->pgno, cp->subno, cp->function); return; }
+        settle(&A, full);
+}
+
 static void apply(const struct letter *L, int full)
 {
         g_new_version = NULL;
@@ -908,6 +1128,10 @@ static void apply(const struct letter *L, int full)
         case OP_NETADD:   do_netadd(L->net, full); break;
         case OP_LIMIT:    do_limit(L->arg, full); break;
         case OP_PURGE:    do_purge(full); break;
+        case OP_DEC:      do_dec(L, full); break;
+        case OP_CHSW:     do_chsw(full); break;
+        case OP_FRAME:    do_frame(0, full); break;
+        case OP_GAP:      do_frame(1, full); break;
         }
 }
 
@@ -942,6 +1166,17 @@ static void canon(uint64_t out[2])
         mc_hash_u64(&h, ca->n_cached_pages); mc_hash_u64(&h, ca->memory_used); mc_hash_u64(&h, ca->memory_limit);
         mc_hash_u64(&h, ca->n_cached_networks);
         mc_hash_u64(&h, (uint64_t) nholds);
+        if (g_dec) {
+                /* what decides the decoder's next channel switch: the countdown, whether it remembers a header and whose */
+                int st = -1;
+                if (g_vbi->vt.header_page.pgno) { uint8_t a[42], b[42]; dec_header(a, 0x100, 0, 0); dec_header(b, 0x100, 0, 1);
+                        st = !memcmp(g_vbi->vt.header + 8, a + 10, 8) ? 0 : !memcmp(g_vbi->vt.header + 8, b + 10, 8) ? 1 : 2; }
+                mc_hash_u64(&h, 0xCCCC0000u + ((uint64_t) g_vbi->chswcd << 8) + (uint64_t)(st + 1));
+                /* and what the model expects of it: on a tree where the two differ (an announced switch that is not
+                 * scheduled) the state must not be merged with the one the history started from, or the history that
+                 * exposes the difference is never run */
+                mc_hash_u64(&h, 0xDDDD0000u + ((uint64_t) D_pending << 8) + (uint64_t)(D_hdr + 1));
+        }
         out[0] = h.a; out[1] = h.b;
 }
 
@@ -962,6 +1197,7 @@ static void teardown(void)
                 /* the structure is not trustworthy any more: leave it alone (kept reachable) */
                 abandoned = 1;
                 if (n_abandoned < 256) abandoned_keep[n_abandoned++] = ca;
+                if (g_dec) { if (n_abandoned < 256) abandoned_keep[n_abandoned++] = g_vbi; g_vbi = g_vbi_shared; ca = NULL; live_n = 0; return; }
                 g_vbi->ca = g_ca0; g_vbi->cn = g_cn0; ca = NULL; live_n = 0;
                 return;
         }
@@ -972,11 +1208,17 @@ static void teardown(void)
                 cache_page_unref(referenced_at(0));
         if (!is_empty(&ca->referenced)) viol(1, "pages stay referenced after every reference was released", "-");
         for (int s = 1; s < NH; s++) if (slot_net[s] >= 0) { cache_network_unref(slot_cn[s]); slot_cn[s] = NULL; }
+        if (g_dec) {
+                if (ca->memory_used > ca->memory_limit) viol(1, "memory_used exceeds memory_limit", "at teardown %lu > %lu", ca->memory_used, ca->memory_limit);
+                vbi_decoder_delete(g_vbi);        /* releases the network, deletes the cache */
+                g_vbi = g_vbi_shared; ca = NULL;
+        } else {
         /* as vbi_decoder_delete() */
         cache_network_unref(g_vbi->cn);
         if (ca->memory_used > ca->memory_limit) viol(1, "memory_used exceeds memory_limit", "at teardown %lu > %lu", ca->memory_used, ca->memory_limit);
         vbi_cache_delete(ca);
         g_vbi->ca = g_ca0; g_vbi->cn = g_cn0; ca = NULL;
+        }
         if (live_n || live_overflow) viol(1, "memory still allocated after all references were released and the cache deleted", "%d blocks", live_n);
         live_n = 0;
         if ((++runs_in_process & 0x3FFF) == 0 && !abandoned) mc_leak_check("LeakSanitizer: leak after teardown");
@@ -1030,6 +1272,40 @@ static int probe_dies(const struct letter *L, char *cls, size_t clen)
         return 1;
 }
 
+/* ---- the whole universe against the map (decoder phase, end of every history) ---------------------
+ * Every page number of PG[] - stored on this network, stored on an earlier one only, never stored - with
+ * subnos 0..3 and VBI_ANY_SUBNO: vbi_is_cached() and _vbi_cache_get_page() must say what the map of the decoder's
+ * CURRENT network says, and return the version stored there (not one of an earlier station). */
+static void universe_probe(void)
+{
+        static const int SUB[] = { VBI_ANY_SUBNO, 0, 1, 2, 3 };
+        int net = slot_net[0];
+        int fewer = 0;
+        for (int p = 0; p < NPG; p++) {
+                for (unsigned k = 0; k < sizeof SUB / sizeof *SUB; k++) {
+                        int mask = SUB[k] == VBI_ANY_SUBNO ? 0 : M_EXACT;
+                        struct mver *want = m_find(net, PG[p], SUB[k], mask);
+                        int r = vbi_is_cached(g_vbi, PG[p], SUB[k]);
+                        if (!r != !want) { viol(1, "vbi_is_cached disagrees with the map", "%x.%s says %d", PG[p], subno_str(SUB[k]), r); return; }
+                        if (want) want->stamp = ++mclock;
+                        cache_page *cp = _vbi_cache_get_page(g_vbi->ca, g_vbi->cn, PG[p], SUB[k], M_EXACT);
+                        if (!cp != !want) { viol(1, want ? "lookup misses a stored page" : "lookup returns a page that is not in the map", "%x.%s", PG[p], subno_str(SUB[k]));
+                                if (cp) cache_page_unref(cp);
+                                return; }
+                        if (cp) {
+                                int ok = cp == want->real && page_equals(cp, want);
+                                cache_page_unref(cp);
+                                if (!ok) { viol(1, mask ? "lookup returns the wrong version" : "wildcard lookup does not return the most recently stored or looked-up version", "%x.%s", PG[p], subno_str(SUB[k])); return; }
+                                want->stamp = ++mclock; oc(OC_PROBE_HIT);
+                        } else oc(OC_PROBE_MISS);
+                }
+                /* coverage: a page number that had a higher subpage on an earlier network of this history than here */
+                for (int m = 0; m < nN; m++) if (m != net && N[m].hi_ever[p] > N[net].hi_ever[p]) fewer = 1;
+        }
+        if (fewer) oc(OC_SWITCH_FEWER);
+        settle(&NOTHING, 1);
+}
+
 /* ---- BFS run ------------------------------------------------------------------------------- */
 
 static uint64_t ev_ops;
@@ -1037,8 +1313,10 @@ static uint64_t ev_ops;
 static int run(const uint8_t *hist, int n, uint64_t hash[2], void *arg)
 {
         static const char *opkey[] = { "put", "put", "get", "is_cached", "unref", "ref", "foreach", "page_type", "switch",
-                                       "network_unref", "add_network", "memory_limit", "purge", "put" };
+                                       "network_unref", "add_network", "memory_limit", "purge", "put",
+                                       "vbi_decode(page)", "vbi_channel_switched", "vbi_decode(frame)", "vbi_decode(gap)" };
         const struct alphabet *al = arg;
+        g_dec = al->dec;
         char hs[500]; size_t o = 0; hs[0] = 0;
         for (int i = 0; i < n && o + 90 < sizeof hs; i++) o += snprintf(hs + o, sizeof hs - o, "%s%s", i ? " ; " : "", letter_name(hist[i], arg));
         mc_case("replayed prefix", "%s", hs);
@@ -1075,6 +1353,13 @@ static int run(const uint8_t *hist, int n, uint64_t hash[2], void *arg)
         }
         int dead = g_hard;
         if (!dead) canon(hash); else { hash[0] = 0xDEAD0000DEAD0000ull; hash[1] = mc_hash64(hist, n); }
+        if (!dead && g_dec) {
+                /* after the state has been hashed (the look-ups reorder the chains; successors are replayed from scratch) */
+                mc_case("look-ups over the page universe", "after: %s", hs);
+                g_report = 1; g_opname = "look-ups over the page universe";
+                universe_probe();
+                dead |= g_hard;
+        }
         mc_case("teardown", "after: %s", hs);
         teardown();
         dead |= g_hard;
@@ -1149,24 +1434,24 @@ int main(int argc, char **argv)
         mc_init(argc, argv, "C10");
         mc_set_budget(110, 860);        /* deadlines (exhaustive:false beyond); intended run times on 16 free cores are far below */
         mc_meta("level", "model_checking");
-        mc_meta("technique", "explicit-state BFS over operation histories replayed on a fresh real vbi_cache (cache.c with CACHE_CONSISTENCY/DLIST_CONSISTENCY), canonical state hashing, reference map model + structural audit + allocator ledger after every history");
-        mc_meta("rule", "every history over the phase alphabet up to the depth bound, one per canonical state (lists in order, counters, page descriptors, pointers as ordinals, page bytes abstracted); a state is non-trivial by construction (it is a distinct cache structure); every transition is audited and ends with a full teardown");
+        mc_meta("technique", "explicit-state BFS over operation histories replayed on a fresh real vbi_cache (cache.c with CACHE_CONSISTENCY/DLIST_CONSISTENCY), canonical state hashing, reference map model + structural audit + allocator ledger after every history; one phase drives the cache through a real vbi_decoder (vbi_decode of Teletext packets, every channel switch path of vbi.c/packet.c)");
+        mc_meta("rule", "every history over the phase alphabet up to the depth bound, one per canonical state (lists in order, counters, page descriptors, pointers as ordinals, page bytes abstracted); a state is non-trivial by construction (it is a distinct cache structure); every transition is audited and ends with a full teardown; vbi_cache_hi_subno must lie between the highest cached subpage and the highest ever stored on the current network (0 on a new one) for every page number of the alphabet after every operation");
         mc_meta("assume", "page contents are data-independent: the cache never branches on page bytes, so states are merged modulo the content tags (contents are still compared byte-wise on every page on every transition)");
         mc_meta("assume", "memory_limit is set white-box as vbi_cache_set_memory_limit() of libzvbi 0.3 does (0.2 has no setter); n_networks_limit stays 1 as in 0.2");
         mc_meta("assume", "eviction victims and the versions superseded by a single-version put are learned from the structure (the property does not fix them); foreach termination/completeness belongs to C17");
         int thorough = mc_tier == MC_THOROUGH;
-        /*                 keys refs memory networks mixed */
-        int depth[NALPH] = { 6, 6, 6, 6, 6 };
-        if (thorough) { depth[0] = 8; depth[1] = 7; depth[2] = 8; depth[3] = 7; depth[4] = 8; }
+        /*                 keys refs memory networks mixed decoder */
+        int depth[NALPH] = { 6, 6, 6, 6, 6, 6 };
+        if (thorough) { depth[0] = 8; depth[1] = 7; depth[2] = 8; depth[3] = 7; depth[4] = 8; depth[5] = 7; }
         if (getenv("C10_DEPTH")) for (int i = 0; i < NALPH; i++) depth[i] = atoi(getenv("C10_DEPTH"));
-        mc_meta("bound", "keys: %d letters depth %d; refs: %d letters depth %d; memory: %d letters depth %d; networks: %d letters (3 handles) depth %d; mixed: %d letters depth %d; 528 function/designation/limit cases; <= 3 page references held",
-                ALPH[0].n, depth[0], ALPH[1].n, depth[1], ALPH[2].n, depth[2], ALPH[3].n, depth[3], ALPH[4].n, depth[4]);
+        mc_meta("bound", "keys: %d letters depth %d; refs: %d letters depth %d; memory: %d letters depth %d; networks: %d letters (3 handles) depth %d; mixed: %d letters depth %d; decoder (fresh vbi_decoder per history; stores by put and by vbi_decode of header+row+header, 2 station header texts; switches by vbi_channel_switched+frame, time gap+countdown, foreign header, vbi_chsw_reset; pages held across switches; at the end of every history is_cached/lookup/hi_subno for 4 page numbers x subno ANY,0..3): %d letters depth %d; 528 function/designation/limit cases; <= 3 page references held",
+                ALPH[0].n, depth[0], ALPH[1].n, depth[1], ALPH[2].n, depth[2], ALPH[3].n, depth[3], ALPH[4].n, depth[4], ALPH[5].n, depth[5]);
         g_vbi = vbi_decoder_new();            /* one real decoder per process, inherited by the workers */
         if (!g_vbi) { fprintf(stderr, "C10: vbi_decoder_new failed\n"); return 2; }
         g_ca0 = g_vbi->ca; g_cn0 = g_vbi->cn;
         mc_pool("functions", 22 * 2 * 6 * 2, functions_case, NULL, 30);
         const char *only = getenv("C10_ONLY");
-        static const int order[NALPH] = { 3, 4, 1, 0, 2 };        /* cheapest phases first: a deadline truncates the largest only */
+        static const int order[NALPH] = { 5, 3, 4, 1, 0, 2 };        /* cheapest phases first: a deadline truncates the largest only */
         for (int k = 0; k < NALPH; k++) {
                 int a = order[k];
                 if (only && strcmp(only, ALPH[a].name)) continue;
